@@ -201,7 +201,7 @@ def run(ev, vd):
         except Exception:
             pass
         vd.violation(dict(component=rec.get("reader", "gfile"), op="crash", version=rec.get("version", 0)),
-                     "graph file harness crashed (rc=%d) in %s: %s" % (rc, rec.get("reader", "?"), (crash or out[-300:])[:400]), dict(record=rec, out=out[-1500:]))
+                     "graph file harness %s (rc=%d) in %s: %s" % ("did not return from a read within its watchdog" if rec.get("sig") == 14 else "crashed", rc, rec.get("reader", "?"), (crash or out[-300:])[:400]), dict(record=rec, out=out[-1500:]))
     recs = convert_cases(ev, scratch, 120 if tier() == "thorough" else 36)
     shutil.rmtree(scratch, ignore_errors=True)
     with open(tr, "a") as f:
